@@ -881,7 +881,37 @@ def generic_alias(interp, origin, args):
     return Obj(cls, {"__origin__": origin, "__args__": args if isinstance(args, tuple) else (args,)})
 
 
+def _mod_itertools(interp, m):
+    def count(i, a, k, n):
+        start = a[0] if a else k.get("start", 0)
+        step = a[1] if len(a) > 1 else k.get("step", 1)
+        if not isinstance(start, int) or not isinstance(step, int):
+            raise Unsupported("itertools.count with symbolic arguments", n)
+        it_ = IterV(ListV([]), None, "count")
+        it_.items = _Counter(start, step)
+        return it_
+
+    m.ns["count"] = BuiltinV("itertools.count", count)
+    _ext_default_getter(m, "itertools")
+
+
+class _Counter:
+    """lazy infinite arithmetic progression used as IterV.items"""
+
+    def __init__(self, start, step):
+        self.start, self.step = start, step
+
+    def __len__(self):
+        return 10 ** 9
+
+    def __getitem__(self, i):
+        if isinstance(i, slice):
+            raise Unsupported("iteration over an infinite itertools.count")
+        return self.start + i * self.step
+
+
 _MODEL_MODULES = {
+    "itertools": _mod_itertools,
     "typing": _mod_typing,
     "inspect": _mod_inspect,
     "functools": _mod_functools,
